@@ -154,6 +154,10 @@ func evalC14(c *Ctx, e *SX) error {
 			break
 		}
 	}
+	// ... and leaves the packet as it was: every value read back AFTER the encodings is still the value that was set
+	if after, want := normPayload(sxEap(ge)).String(), normPayload(e).String(); after != want {
+		fail("a value read back from a packet after it was encoded is not the value that was set", want, after)
+	}
 	dec := implEapUnmarshal(exact(w))
 	decM, err := c.M.Ask("(eap_unmarshal " + hx(w) + ")")
 	if err != nil {
@@ -467,6 +471,8 @@ func runC15(c *Ctx) error {
 		var ge *eap.EAP
 		var mac []byte
 		impl := run(func() string {
+			holdArgs = i%2 == 0 // half of the senders wipe the buffers they passed to the setters only after the code is computed
+			defer releaseArgs()
 			ge = goEap(e)
 			m, err := ge.CalcEapAkaPrimeAtMAC(key)
 			if err != nil {
